@@ -39,8 +39,8 @@ theorem parseLine_parsed {l : Str} {s : Stmt} (h : parseLine l = .ok (some s)) :
 
 /-- every statement that enters the back end was built by the parser -/
 theorem expand_parsed {fs : Files} {lines : List Str} {parsed ss0 : List Stmt}
-    (hp : parseLines lines = .ok parsed) (he : expand fs 64 [] parsed = .ok ss0) : ∀ s ∈ ss0, Parsed s :=
-  expand_forall (P := Parsed) (fun _ _ h => parseLine_parsed h) fs 64 [] parsed ss0
+    (hp : parseLines lines = .ok parsed) (he : expand fs (includeFuel fs) [] parsed = .ok ss0) : ∀ s ∈ ss0, Parsed s :=
+  expand_forall (P := Parsed) (fun _ _ h => parseLine_parsed h) fs (includeFuel fs) [] parsed ss0
     (parseLines_forall (P := Parsed) (fun _ _ h => parseLine_parsed h) lines parsed hp) he
 
 /-! ### operand kinds -/
